@@ -93,7 +93,13 @@ def match_cases(draw):
         else:
             pts1.append(draw(htmsets.any_point()))
     perpoint = draw(st.sampled_from([False, False, True]))
-    if perpoint:
+    if perpoint and draw(st.sampled_from([False, False, True])):
+        # per-point radii that differ by a few parts in 1e6 (numpy.allclose would call them equal): a pair between
+        # two of them is decided by the radius of its own first-set point, not by a representative one (round 9)
+        r0 = draw(radius_st)
+        choices = [r0 * (1.0 + e) for e in draw(st.permutations([0.0, 3e-6, 8e-6]))]
+        choices = [min(c, 180.0) for c in choices]
+    elif perpoint:
         choices = draw(st.lists(radius_st, min_size=2, max_size=3))
     else:
         choices = [draw(radius_st)]
@@ -598,6 +604,9 @@ def classify(case):
             "maxmatch:%d" % case["maxmatch"], "container:" + case["container"],
             "radius:" + ("perpoint" if isinstance(case["radius"], list) else "scalar"),
             "set2:" + ("self" if su.selfmatch else "other")]
+    if isinstance(case["radius"], list) and len(set(case["radius"])) > 1 and min(case["radius"]) > 0 \
+            and max(case["radius"]) / min(case["radius"]) - 1.0 < 1e-5:
+        labs.append("radius:perpoint-nearly-equal")
     rmaxv = float(su.rad.max())
     labs.append("rmax:" + ("0" if rmaxv == 0 else "180" if rmaxv == 180 else "1e%d" % math.floor(math.log10(rmaxv))))
     nonself = su.req.copy()
